@@ -5,6 +5,6 @@ cd "$(dirname "$0")/.."
 for d in seeded/*/; do
   s=$(basename "$d"); p=${s%-*}
   if [ "${1:-}" = "all" ]; then props=$(printf "C%02d " $(seq 1 20)); else props=$p; fi
-  res=$(tools/try_patch.sh "$d/patch.diff" $props 2>&1 | grep -E "^C[0-9]+ \[" | awk '{split($5,a,"="); if (a[2]>0) printf "%s ", $1}')
+  res=$(TIER=${TIER:-quick} tools/try_patch.sh "$d/patch.diff" $props 2>&1 | grep -E "^C[0-9]+ \[|PATCH DOES NOT" | awk '{ if ($0 ~ /PATCH/) printf "NOAPPLY "; else {split($5,a,"="); if (a[2]>0) printf "%s ", $1}}')
   echo "$s: ${res:-MISSED}"
 done
